@@ -20,7 +20,7 @@ BIN_OPS = ["+", "-", "*", "<", ">", "==", "!=", "<=", ">=", "&", "|", "^"]
 CMP_OPS = {"<", ">", "==", "!=", "<=", ">="}
 UN_OPS = ["-", "~", "abs"]
 CONSTS = ["0", "1", "5", "True", "False", "None", "(1, 2)", "'s'"]
-FLAG_CONSTS = ["True", "False", "0", "1", "()", "'x'"]
+FLAG_CONSTS = ["True", "False", "0", "1", "()", "'x'", "None"]
 
 BASE_PROFILE: Dict[str, Any] = dict(
     n_stmts=(1, 8), p_more=0.72,
